@@ -427,6 +427,21 @@ def run(ctx):
         fs[victim] = G.mutate_text(rng, fs[victim])
         add_file('include_mutated', fs, s.files[0].name + '.fbs', None)
 
+    # ---- non-seekable schema files (FIFO): root and included, default and unlimited size option
+    fifo_n = [0]
+    def add_fifo(klass, content, include, opts):
+        fifo_n[0] += 1
+        d = os.path.join(incroot, 'f%d' % fifo_n[0]); os.makedirs(d, exist_ok=True)
+        fifo = os.path.join(d, 'p.fbs')
+        if include:
+            rootp = os.path.join(d, 'a.fbs'); open(rootp, 'w').write('include "p.fbs";\ntable A { x:int; }\n')
+        else: rootp = fifo
+        cases.append({'klass': klass, 'kind': 'fifo', 'opts': opts + ',inpath=' + d, 'gen': 2, 'path': rootp, 'fifo': fifo, 'data': content.encode(),
+                      'files': {'p.fbs (FIFO)': content}, 'expect': None})
+    for content in ('table P { a:int; }\n', valid_texts[0], 'table P { a:int; }\n' + '// pad\n' * 20000, '', '7'):
+        for include in (False, True):
+            for o in ('cgen_reader=1', 'cgen_reader=1,max_schema_size=0', 'bgen_bfbs=1,max_schema_size=0', 'cgen_reader=1,max_schema_size=64'):
+                add_fifo('nonseekable_file', content, include, o)
     rng.shuffle(cases)
     # ---- run: N parallel harness processes, each a long history of cycles
     nproc = 16
@@ -438,6 +453,7 @@ def run(ctx):
         lines = []
         for c in ch:
             if c['kind'] == 'buf': lines.append('buf %s %d %s %s %s' % (c['opts'], c['gen'], od, c['name'], hx(c['data'])))
+            elif c['kind'] == 'fifo': lines.append('fifo %s %d %s %s %s %s' % (c['opts'], c['gen'], od, c['path'], c['fifo'], hx(c['data'])))
             else: lines.append('file %s %d %s %s' % (c['opts'], c['gen'], od, c['path']))
         open(os.path.join(ctx.bdir, 'chunk%d.txt' % idx), 'w').write('\n'.join(lines) + '\n')
         h = lib.Harness(exe, env={'ASAN_OPTIONS': 'detect_leaks=1:abort_on_error=0:allocator_may_return_null=1:detect_stack_use_after_return=0',
